@@ -288,6 +288,9 @@ func (w *World) Method(name string, recv interp.PtrV, args []interp.Value) (inte
 		if !b.Known {
 			panic(interp.Unsupported{Msg: "symbolic tracking flag"})
 		}
+		if w.M.OnStore != nil {
+			w.M.OnStore(recv.C.Fields[w.A.FGctx], 0, nil)
+		}
 		interp.Store(recv.C.Fields[w.A.FGctx], w.NewGradContext(b.Val, false, nil))
 		return nil, true
 
@@ -588,7 +591,26 @@ func (w *World) Method(name string, recv interp.PtrV, args []interp.Value) (inte
 		e, rng := w.fibreStat(name, recv, k)
 		return w.okResult(w.result(name, S, e, rng)), true
 
-	case "Sum", "Max", "Min", "Avg", "Var", "Std", "Mean":
+	case "Sum", "Max", "Min", "Avg", "Mean":
+		// whole-tensor folds as nested binders over every axis
+		e := w.elemAt(recv, id)
+		for k := r - 1; k >= 0; k-- {
+			v := sym.FreshVar()
+			body := e.SubstIdx(map[string]sym.Poly{IxName(k): sym.PAtom(v)})
+			switch name {
+			case "Max":
+				e = sym.BigMax(v, d[k], body)
+			case "Min":
+				e = sym.BigMin(v, d[k], body)
+			default:
+				e = sym.Sigma(v, d[k], body)
+			}
+		}
+		if name == "Avg" || name == "Mean" {
+			e = sym.Div(e, sym.PolyE(prod(d)))
+		}
+		return interp.FloatV{E: e}, true
+	case "Var", "Std":
 		return interp.FloatV{E: sym.SymE(w.fresh("scalar" + name))}, true
 
 	case "At":
